@@ -309,7 +309,7 @@ def obligations(tier, seed):
         dur.append(("day-time-us", ["0 <= days < 10", "0 <= secs < 86400", "0 <= us < 1000000"]))
     for name, pre in dur:
         obs.append(dict(oid="K/duration-iso/%s" % name, family="k-duration-iso", desc={}, sig=[("days", "i"), ("secs", "i"), ("us", "i")], pre=pre,
-                        budget=300 if tier == "quick" else 3000))
+                        budget=300 if tier == "quick" else 1200))
     return obs
 
 
